@@ -19,16 +19,38 @@ pub fn gaps(seed: usize) -> Vec<f64> {
     (0..base.len()).map(|i| base[(i + seed) % base.len()]).collect()
 }
 
-thread_local! { pub static AXIS_OFFSET: std::cell::Cell<f64> = std::cell::Cell::new(0.0); }
+thread_local! {
+    pub static BUILDER_ORDER: std::cell::Cell<bool> = std::cell::Cell::new(false);
+    pub static AXIS_OFFSET: std::cell::Cell<f64> = std::cell::Cell::new(0.0);
+    pub static AXIS_SCALE: std::cell::Cell<f64> = std::cell::Cell::new(1.0);
+    pub static AXIS_GAPSET: std::cell::RefCell<String> = std::cell::RefCell::new(String::new());
+    pub static AXIS_REVERSED: std::cell::Cell<bool> = std::cell::Cell::new(false);
+}
 pub fn axis(prefix: &str, n: usize, seed: usize) -> Array1<Sym> {
-    let g = gaps(seed);
+    let mut g = gaps(seed);
+    let gs = AXIS_GAPSET.with(|g| g.borrow().clone());
+    match gs.as_str() {
+        "uniform" => g = vec![1.0; 10],
+        // first interval == mean interval although the axis is not uniform
+        "mean" => { g = vec![1.0, 1.5, 0.75, 0.75, 1.0, 1.0, 1.0, 1.0, 1.0, 1.0]; if n >= 2 { let m = n - 1; let s: f64 = g[..m].iter().sum(); let fix = m as f64 - s; g[m - 1] += fix; } }
+        "palindrome" => { let h = [0.5, 2.0, 1.25, 3.0, 0.75]; g = (0..10).map(|i| { let m = n.saturating_sub(1).max(1); let j = i.min(m - 1 - i.min(m - 1)); h[j % h.len()] }).collect(); }
+        _ => {}
+    }
+    let scale = AXIS_SCALE.with(|o| o.get());
     let mut v = -1.25 + seed as f64 * 0.5 + AXIS_OFFSET.with(|o| o.get());
     let mut out = Vec::new();
     for i in 0..n {
-        out.push(var(&format!("{prefix}{i}"), v));
+        out.push(var(&format!("{prefix}{i}"), v * scale));
         v += g[i % g.len()];
     }
-    Array1::from(out)
+    let a = Array1::from(out);
+    if AXIS_REVERSED.with(|r| r.get()) {
+        // same logical contents, stored in reverse memory order (stride -1)
+        let mut r = Array1::from(a.iter().rev().copied().collect::<Vec<_>>());
+        r.invert_axis(Axis(0));
+        return r;
+    }
+    a
 }
 
 pub fn json_escape(s: &str) -> String { s.replace('\\', "\\\\").replace('"', "\\\"") }
@@ -147,7 +169,8 @@ where
             match Interp1DBuilder::new(data.clone()).x(x.clone()).strategy(Linear::new().extrapolate(extrap)).build() { Ok(i) => Some(i), Err(e) => return format!("builderr:{}", err_kind(&e)) }
         } else { None };
         let spl = if strat_name != "linear" {
-            let strat = CubicSpline::new().boundary(bc).extrapolate(extrap);
+            // both orders of the builder calls must configure the same strategy
+            let strat = if BUILDER_ORDER.with(|r| r.get()) { CubicSpline::new().extrapolate(extrap).boundary(bc) } else { CubicSpline::new().boundary(bc).extrapolate(extrap) };
             match Interp1DBuilder::new(data).x(x.clone()).strategy(strat).build() { Ok(i) => Some(i), Err(e) => return format!("builderr:{}", err_kind(&e)) }
         } else { None };
         let mut put = |key: &str, q: Sym, outputs: &mut BTreeMap<String, u32>| -> bool {
@@ -163,9 +186,18 @@ where
         for i in 0..n - 1 {
             let q = var(&format!("q{i}"), xs[i] + (xs[i + 1] - xs[i]) * 0.3125);
             put(&format!("P:{i}"), q, &mut outputs);
+            // a query exactly on the NEXT knot, issued right after a query in the interval to its left
+            // (the answer must come from the interval that starts at the knot, whatever was asked before)
+            let qk = var(&format!("qk{}", i + 1), xs[i + 1]);
+            put(&format!("K:{}", i + 1), qk, &mut outputs);
         }
         let span = xs[n - 1] - xs[0];
         // outside the range on both sides (Err when extrapolation is off)
+        // the floats adjacent to the range ends, on the outside
+        let below = |v: f64| if v > 0.0 { f64::from_bits(v.to_bits() - 1) } else if v < 0.0 { f64::from_bits(v.to_bits() + 1) } else { -f64::MIN_POSITIVE };
+        let above = |v: f64| if v > 0.0 { f64::from_bits(v.to_bits() + 1) } else if v < 0.0 { f64::from_bits(v.to_bits() - 1) } else { f64::MIN_POSITIVE };
+        put("PLE", var("qLe", below(xs[0])), &mut outputs);
+        put("PRE", var("qRe", above(xs[n - 1])), &mut outputs);
         put("PL", var("qL", xs[0] - 0.4375 * span), &mut outputs);
         put("PR", var("qR", xs[n - 1] + 0.3125 * span), &mut outputs);
         if bc_spec == "Periodic" && extrap {
@@ -241,6 +273,10 @@ fn main() {
             "spline" | "linear" => {
                 let strat_name = args[0].clone();
                 AXIS_OFFSET.with(|o| o.set(arg(&args, "off", "0").parse().unwrap()));
+                AXIS_SCALE.with(|o| o.set(arg(&args, "xscale", "1").parse().unwrap()));
+                AXIS_GAPSET.with(|g| *g.borrow_mut() = arg(&args, "gapset", "").to_string());
+                AXIS_REVERSED.with(|r| r.set(arg(&args, "xlayout", "") == "rev"));
+                BUILDER_ORDER.with(|r| r.set(arg(&args, "order", "be") == "eb"));
                 let n: usize = arg(&args, "n", "4").parse().unwrap();
                 let lanes: Vec<usize> = arg(&args, "lanes", "").split('x').filter(|s| !s.is_empty()).map(|s| s.parse().unwrap()).collect();
                 let bc = arg(&args, "bc", "NotAKnot").to_string();
@@ -263,9 +299,9 @@ fn main() {
                     }
                 }
             }
-            "bilinear" => bil_run(line.trim(), &args),
+            "bilinear" => { AXIS_OFFSET.with(|o| o.set(0.0)); AXIS_SCALE.with(|o| o.set(1.0)); AXIS_GAPSET.with(|g| g.borrow_mut().clear()); AXIS_REVERSED.with(|r| r.set(false)); bil_run(line.trim(), &args) }
             "probe" => probe::probe(arg(&args, "unit", "")),
-            other => entry::dispatch(other, &args, line.trim()),
+            other => { AXIS_OFFSET.with(|o| o.set(0.0)); AXIS_SCALE.with(|o| o.set(1.0)); AXIS_GAPSET.with(|g| g.borrow_mut().clear()); AXIS_REVERSED.with(|r| r.set(false)); entry::dispatch(other, &args, line.trim()) }
         }
     }
 }
